@@ -11,6 +11,7 @@ from __future__ import annotations
 import vlib.boot  # noqa: F401
 from vlib.boot import B, drive
 from vlib.ob import obligation
+from workflows import Context, Workflow, step  # noqa: F401,E402  (module scope for step annotations)
 from vlib.world import (
     EVA, EVB, EVC, ASK, EvA, EvB, EvC, AskEv, StartEvent, StubPolicy, W_PENDING, world_ab, world_ab_valid,
 )
@@ -47,7 +48,7 @@ E_A, E_B, E_C, E_ASK = EvA(), EvB(), EvC(), AskEv()
 
 
 # (event kind, target) pairs allowed by the target-validity precondition
-_ET = [(0, 0), (0, 1), (0, 2), (1, 0), (1, 2), (2, 0), (2, 2), (3, 0)]
+_ET = [(0, 0), (0, 1), (0, 2), (1, 0), (1, 2), (2, 0), (2, 1), (2, 2), (3, 0)]
 
 
 def _count(ws, ev) -> int:
@@ -58,9 +59,9 @@ def _shape(ws):
     return [id(x.event) for x in ws.in_progress], [id(x.event) for x in ws.queue]
 
 
-@obligation(quick=90, thorough=300,
-            partitions_quick=[f"evk == {e} and target == {t}" for (e, t) in _ET],
-            partitions_thorough=[f"evk == {e} and target == {t} and nw == {n}" for (e, t) in _ET for n in (1, 2)],
+@obligation(quick=150, thorough=300,
+            partitions_quick=[f"evk == {e} and target == {t} and nw == {n}" for (e, t) in _ET for n in (1, 2)],
+            partitions_thorough=[f"evk == {e} and target == {t} and nw == {n} and a_acc_c == {a}" for (e, t) in _ET for n in (1, 2) for a in (False, True)],
             what="routing of TickAddEvent(e, target) against the statement's oracle: accepting steps get e exactly once, "
                  "pending matching waiters get it as wait result, others untouched, UnhandledEvent exactly when nobody takes it",
             bounds={"steps": 2, "num_workers(a)": "1..2", "queue": "0..QMAX", "waiter": "none/pending/resolved/timed-out",
@@ -260,6 +261,20 @@ def ob_step_result_conservation(nw: int, b0: bool, b1: bool, b2: bool, q: int, w
 
 # ------------------------------------------------------------------ thorough: whole runs under symbolic schedules
 
+class Wb(Event):
+    """module level: step annotations are resolved against the module scope"""
+
+    i: int
+
+
+class Wc(Event):
+    i: int
+
+
+class Wd(Event):
+    i: int
+
+
 @obligation(quick=None, thorough=900, partitions_thorough=[f"c0 == {a} and c1 == {b}" for a in range(3) for b in range(3)],
             what="whole run (real Workflow.run/BasicRuntime/control_loop/step workers on MiniLoop): fan-out by ctx.send_event, a "
                  "targeted send, a returned event; per-step invocation multiset equals the statement's expectation under every schedule",
@@ -275,15 +290,6 @@ def ob_whole_run_delivery(nw: int, c0: int, c1: int, c2: int, c3: int, c4: int, 
 
     env = Env([c0, c1, c2, c3, c4, c5])
     log: list = []
-
-    class Wb(Event):
-        i: int
-
-    class Wc(Event):
-        i: int
-
-    class Wd(Event):
-        i: int
 
     class W(Workflow):
         @step
